@@ -107,8 +107,15 @@ fn gen_templates(rng: &mut Rng) -> (String, usize) {
         s.push_str("# generated feature.def\n\n");
     }
     let nu = 1 + rng.below(4);
-    for _ in 0..nu {
-        s.push_str(&format!("UNIGRAM {}\n", rng.pick(&uni_pool)));
+    // a third of the set-ups use per-column unigram templates only: a word's merged weight is then a sum of per-column
+    // weights, and a new combination of trained column values (a user entry) can outweigh every seed entry
+    let per_column = rng.chance(1, 3);
+    for i in 0..nu {
+        if per_column {
+            s.push_str(&format!("UNIGRAM {}\n", ["u0:%F[0]", "%F[1]", "u4:%F?[2]", "u0:%F[0]"][(i + rng.below(2)) % 4]));
+        } else {
+            s.push_str(&format!("UNIGRAM {}\n", rng.pick(&uni_pool)));
+        }
     }
     let k = if rng.chance(1, 4) { 8 + rng.below(5) } else { 1 + rng.below(6) };
     // the last pool entry yields feature strings that are literally `*`: only sometimes
@@ -157,6 +164,94 @@ fn gen_unk_rows(rng: &mut Rng, cates: &[CateSpec], slash: bool) -> String {
         rng.shuffle(&mut rows);
     }
     rows.concat()
+}
+
+/// A feature row whose columns come from the seed rows (a different seed row per column): every per-column
+/// expansion is a trained feature while the combination is new.
+fn crossover_feature(rng: &mut Rng, rows: &[(String, String)]) -> Option<String> {
+    // raw cells (quotes kept), split at commas outside quotes
+    let split = |t: &str| -> Vec<String> {
+        let (mut cells, mut cur, mut q) = (vec![], String::new(), false);
+        for ch in t.chars() {
+            if ch == '"' {
+                q = !q;
+            }
+            if ch == ',' && !q {
+                cells.push(std::mem::take(&mut cur));
+            } else {
+                cur.push(ch);
+            }
+        }
+        cells.push(cur);
+        cells
+    };
+    let cols: Vec<Vec<String>> = rows.iter().map(|r| split(&r.1)).collect();
+    let width = cols.iter().map(|c| c.len()).max().unwrap_or(0);
+    let mut out: Vec<String> = vec![];
+    for j in 0..width {
+        let have: Vec<&Vec<String>> = cols.iter().filter(|c| c.len() > j).collect();
+        if have.is_empty() {
+            break;
+        }
+        out.push(have[rng.below(have.len())][j].clone());
+    }
+    if out.is_empty() { None } else { Some(out.join(",")) }
+}
+
+/// The cost column of every row of an emitted lexicon file (`surface,left,right,cost,...`, surface possibly quoted).
+fn row_costs(file: &[u8]) -> Vec<i64> {
+    let text = String::from_utf8_lossy(file);
+    let mut out = vec![];
+    // rows end at line breaks outside quotes
+    let (mut q, mut cur, mut rows) = (false, String::new(), vec![]);
+    for ch in text.chars() {
+        if ch == '"' {
+            q = !q;
+        }
+        if ch == '\n' && !q {
+            rows.push(std::mem::take(&mut cur));
+        } else {
+            cur.push(ch);
+        }
+    }
+    for row in rows {
+        let (mut q, mut commas, mut cell) = (false, 0, String::new());
+        for ch in row.chars() {
+            if ch == '"' {
+                q = !q;
+            }
+            if ch == ',' && !q {
+                commas += 1;
+                if commas == 4 {
+                    break;
+                }
+                if commas == 3 {
+                    cell.clear();
+                }
+                continue;
+            }
+            if commas == 3 {
+                cell.push(ch);
+            }
+        }
+        if let Ok(c) = cell.parse::<i64>() {
+            out.push(c);
+        }
+    }
+    out
+}
+
+/// Does some user entry carry the largest absolute weight of the model (its cost is at the end of the 16-bit scale
+/// while no system entry's is)?
+fn user_is_max(g: &Option<Result<Gen, ()>>) -> bool {
+    match g {
+        Some(Ok(g)) => {
+            let l = row_costs(&g.lex).into_iter().map(|c| c.abs()).max().unwrap_or(0);
+            let u = row_costs(&g.user).into_iter().map(|c| c.abs()).max().unwrap_or(0);
+            u >= 32766 && l < 32000
+        }
+        _ => false,
+    }
 }
 
 pub fn gen_setup(rng: &mut Rng) -> Setup {
@@ -211,11 +306,21 @@ pub fn gen_setup(rng: &mut Rng) -> Setup {
     }
     // user lexicon
     let mut user = String::new();
-    let nu = 1 + rng.below(4);
+    let nu = 1 + rng.below(6);
     for _ in 0..nu {
         let s = if rng.chance(1, 3) { rows[rng.below(rows.len())].0.clone() } else { gen_surface(rng, true) };
-        let f = if rng.chance(1, 3) { rows[rng.below(rows.len())].1.clone() } else { gen_feature(rng, slash) };
+        let mut f = if rng.chance(1, 3) { rows[rng.below(rows.len())].1.clone() } else { gen_feature(rng, slash) };
+        // crossover rows: every feature column comes from some seed row (a different one per column), so that each
+        // per-column expansion is a trained feature while the combination is new - such an entry can outweigh every
+        // seed entry (its merged weight becomes the largest absolute weight of the model)
+        let cross = rng.chance(1, 2);
+        if cross {
+            if let Some(x) = crossover_feature(rng, &rows) {
+                f = x;
+            }
+        }
         let params = match rng.below(5) {
+            _ if cross => "0,0,0".to_string(),
             0 => format!("{},{},{}", rng.below(3), rng.below(3), rng.range(-40, 40)),
             1 => "0,0,7".to_string(),
             2 => format!("{},{},0", 1 + rng.below(2), 1 + rng.below(2)),
@@ -645,7 +750,10 @@ pub fn run(mode: &str, seed: u64, n: usize, out: &mut dyn Write) {
         if let Some(Ok(mut ms)) = guarded(|| Model::read_model(&image[..]).map_err(|_| ())) {
             let variants = if mode == "full" { 3 } else { 1 };
             for v in 0..variants {
-                let kind = rng.below(7);
+                // kind 7: unigram weights large and positive, bigram weights tiny: the largest absolute weight is a
+                // word's merged unigram weight, so a `0,0,0` user entry that combines strongly weighted features changes
+                // the scale of every emitted cost (the generation before `read_user_lexicon` must not be remembered)
+                let kind = if rng.chance(1, 4) { 7 } else { rng.below(7) };
                 let j = rng.below(64);
                 let salt = rng.next();
                 // kind 6: two templates cancel each other (+H / -H), everything else is tiny, so single
@@ -681,9 +789,17 @@ pub fn run(mode: &str, seed: u64, n: usize, out: &mut dyn Write) {
                         }
                     }
                 }
+                let bigram_idx: std::collections::HashSet<usize> = if kind == 7 {
+                    vibrato::trainer::verif::bigram_weight_table(&ms).into_iter().map(|x| x.2).collect()
+                } else {
+                    Default::default()
+                };
                 let f = move |i: usize, w: f64| -> f64 {
                     let h = (i as u64).wrapping_mul(0x9E3779B97F4A7C15) ^ salt;
                     match kind {
+                        // unigram weights spread over [-10, 10], bigram weights tiny: the largest absolute weight is always a
+                        // word's merged unigram weight
+                        7 => if bigram_idx.contains(&i) { w * 0.001 } else { ((h >> 8) % 2001) as f64 / 100.0 - 10.0 },
                         6 => match tmpl.get(&i) {
                             Some(1) => 5.0 + w * 0.05,
                             Some(2) => -5.0 + w * 0.05,
@@ -700,6 +816,42 @@ pub fn run(mode: &str, seed: u64, n: usize, out: &mut dyn Write) {
                 if let Some(Ok(img)) = guarded(|| vibrato::trainer::verif::write_model_with_weights(&mut ms, &f)) {
                     let (obs_s, gs) = observe_gen(&img, None);
                     writeln!(out, "train {id}.s{v} GEN {} none IMPL {} ## {} SYNTH={kind}", hex(&img), obs_s, flags(&s, true, &gs)).unwrap();
+                    // history on the synthetic model: generate, read the user lexicon, generate again -- against a model
+                    // that is read back and sees the user lexicon before its first generation
+                    if kind == 7 || kind == 5 {
+                        // search for a user lexicon whose entry becomes the largest absolute weight of the model (decided on
+                        // a model that reads it before its first generation); fall back to the set-up's own user lexicon
+                        let mut user_u: Vec<u8> = user.to_vec();
+                        for _ in 0..12 {
+                            if let Some(f) = crossover_feature(&mut rng, &s.rows) {
+                                let surf = s.rows[rng.below(s.rows.len())].0.clone();
+                                let cand = format!("{},0,0,0,{}\n", csv_cell(&surf), f).into_bytes();
+                                let (_, g) = observe_gen(&img, Some(&cand[..]));
+                                if user_is_max(&g) {
+                                    user_u = cand;
+                                    break;
+                                }
+                            }
+                        }
+                        let user = &user_u[..];
+                        let (obs_u, gu) = observe_gen(&img, Some(user));
+                        let gm = guarded(|| {
+                            let mut m = Model::read_model(&img[..]).ok()?;
+                            let _ = generate(&mut m);
+                            if m.read_user_lexicon(user).is_err() {
+                                return Some(Err(()));
+                            }
+                            generate(&mut m)
+                        })
+                        .flatten();
+                        let rt_u = match (&gu, &gm) {
+                            (Some(Ok(a)), Some(Ok(b))) => same_files(a, b),
+                            (None, None) => true,
+                            (Some(Err(())), Some(Err(()))) => true,
+                            _ => false,
+                        };
+                        writeln!(out, "train {id}.u{v} GEN {} {} IMPL {} ## {} SYNTH={kind}", hex(&img), hex(user), obs_u, flags(&s, rt_u, &gu)).unwrap();
+                    }
                 }
             }
         }
